@@ -32,7 +32,6 @@ CODES = {
     10: "at rest an eligible node does not run exactly one Ready pod built from the live template",
     11: "at rest a daemon pod remains on a node that is not eligible",
     12: "the last two fair rounds still created or deleted pods or replica sets",
-    13: "at rest the status counters do not equal the eligible nodes / the daemon pods",
     14: "at rest the active replica set is not the live template's",
     15: "more fair rounds were needed than the bound",
     20: "harness panic",
@@ -46,8 +45,12 @@ def tail_rounds(n_nodes):
 
 
 def generate(rng, tier, stats):
+    return gen_cases(rng, stats, 36 if tier == "quick" else 600)
+
+
+def gen_cases(rng, stats, count):
     out = []
-    for _ in range(36 if tier == "quick" else 600):
+    for _ in range(count):
         n = rng.choice([2, 3, 4, 5, 6])
         c = histgen.gen_history(rng, stats, n=n, length=rng.choice([8, 14, 22, 30]), allow_cmds=True)
         e = [o for o in c["objects"] if o["kind"] == "ExtendedDaemonSet"][0]
@@ -58,22 +61,63 @@ def generate(rng, tier, stats):
             can["autoFail"] = {"enabled": True, "maxRestarts": 5}
         # resume everything, then fair rounds
         ops = c["ops"]
+        if rng.random() < 0.35:
+            # a template change made WHILE the rollout is frozen or paused: the replica set is born under the annotation
+            key = rng.choice([P.A_FROZEN, P.A_RU_PAUSED])
+            ops += [histgen.edit("ExtendedDaemonSet", NS, EDS, "annotate:%s=true" % key),
+                    histgen.edit("ExtendedDaemonSet", NS, EDS, "image:img:%d" % rng.choice([4, 5])),
+                    histgen.rec_eds(), K.sleep(2), histgen.rec_eds(), histgen.rec_all_ers(rng)]
+            wprop.bump(stats, "template changed while frozen/paused", key.rsplit("/", 1)[-1])
+        add_tail(rng, c, n + 2)
+        out.append(c)
+    return out
+
+
+def add_tail(rng, c, n_nodes, resume=True):
+    """resume everything (unless told not to), then fair rounds of all controllers with a kubelet"""
+    ops = c["ops"]
+    if resume:
         ops += [histgen.edit("ExtendedDaemonSet", NS, EDS, "unannotate:" + P.A_RU_PAUSED),
                 histgen.edit("ExtendedDaemonSet", NS, EDS, "unannotate:" + P.A_FROZEN),
                 histgen.edit("ExtendedDaemonSet", NS, EDS, "annotate:%s=false" % P.A_PAUSED),
                 histgen.edit("ExtendedDaemonSet", NS, EDS, "annotate:%s=true" % P.A_UNPAUSED)]
-        rounds = tail_rounds(n + 2)
-        c["tail_start"] = len(ops)
-        c["tail_rounds"] = rounds
-        for k in range(rounds):
-            rnd = histgen.fair_round(rng, sleep=61)
-            if 3 <= k < rounds - 2:
-                for o in rnd:
-                    o["nodump"] = True      # judged at the end; not every round is a correspondence case
-            ops += rnd
-        c["n_nodes"] = n + 2
-        out.append(c)
-    return out
+    rounds = tail_rounds(n_nodes)
+    c["tail_start"] = len(ops)
+    c["tail_rounds"] = rounds
+    for k in range(rounds):
+        rnd = histgen.fair_round(rng, sleep=61)
+        if 3 <= k < rounds - 2:
+            for o in rnd:
+                o["nodump"] = True      # judged at the end; not every round is a correspondence case
+        ops += rnd
+    c["n_nodes"] = n_nodes
+
+
+def shrinking_cluster_case(rng, stats):
+    """a manual-mode canary on a percentage of the nodes; the cluster grows (status.desired follows), then shrinks
+    below the number of canary nodes that the stale status.desired resolves to; then a fair tail"""
+    n = rng.choice([4, 4, 6])
+    c = histgen.gen_history(rng, None, n=n, canary=True, length=0)
+    e = [o for o in c["objects"] if o["kind"] == "ExtendedDaemonSet"][0]
+    can = e["spec"]["strategy"]["canary"]
+    can.pop("duration", None)
+    can.pop("noRestartsDuration", None)
+    can["validationMode"] = "manual"
+    can["replicas"] = "50%"
+    can["autoFail"] = {"enabled": True, "maxRestarts": 5}
+    e["spec"]["strategy"]["rollingUpdate"]["maxParallelPodCreation"] = 250
+    ops = c["ops"]
+    ops += histgen.rollout_ops(rng, 3)
+    ops += [histgen.edit("ExtendedDaemonSet", NS, EDS, "image:img:2")]
+    ops += histgen.rollout_ops(rng, 3)                                     # the canary runs on half of the nodes
+    grow = rng.choice([2, 2, 4])
+    ops += [K.apply(K.node("n%d" % (n + i), labels={"role": "w", "zone": "a"})) for i in range(grow)]
+    ops += histgen.fair_round(rng, sleep=61) + histgen.fair_round(rng, sleep=61)[:3]   # ... status.desired follows the growth
+    victims = rng.sample(range(n + grow), n + grow - rng.choice([1, 2]))
+    ops += [K.delete("Node", "", "n%d" % i) for i in victims]              # ... and most of the nodes go away
+    add_tail(rng, c, n + grow, resume=False)
+    wprop.bump(stats, "shrinking cluster under a percent canary", "%d+%d-%d" % (n, grow, len(victims)))
+    return c
 
 
 def encode(c, r):
